@@ -145,8 +145,8 @@ func c17ParseTotal(c *Ctx, m *Module) {
 	var lineV ssa.Value
 	for _, in := range instrsOf(parse) {
 		if cl, ok := in.(*ssa.Call); ok && calleeName(&cl.Call) == "strings.Cut" {
-			if k, _ := constOf(cl.Call.Args[1]); k == "#" {
-				lineV = cl.Call.Args[0]
+			if k, _ := constOf(argsOf(cl)[1]); k == "#" {
+				lineV = argsOf(cl)[0]
 			}
 		}
 	}
@@ -345,7 +345,7 @@ func c17Pad(c *Ctx, m *Module) {
 		}
 		sorted := false
 		for _, cs := range callsIn(pad, "golang.org/x/mod/semver.Sort") {
-			if precedes(cs, ret) && cs.Common().Args[0] == ret.Results[0] {
+			if precedes(cs, ret) && argsOf(cs)[0] == ret.Results[0] {
 				// no append to it after the sort
 				if reachesWithout(cs, func(in ssa.Instruction) bool { return isCallTo(in, "builtin:append") }, nil) == nil {
 					sorted = true
@@ -356,7 +356,7 @@ func c17Pad(c *Ctx, m *Module) {
 		// derives from slices.Clone(param) through append
 		okDerive := false
 		for v := range backwardSlice(ret.Results[0], 200) {
-			if cl, ok := v.(*ssa.Call); ok && strings.HasPrefix(calleeName(&cl.Call), "slices.Clone") && cl.Call.Args[0] == ssa.Value(pad.Params[0]) {
+			if cl, ok := v.(*ssa.Call); ok && strings.HasPrefix(calleeName(&cl.Call), "slices.Clone") && argsOf(cl)[0] == ssa.Value(pad.Params[0]) {
 				okDerive = true
 			}
 		}
@@ -457,11 +457,11 @@ func c17Determinism(c *Ctx, m *Module) {
 						// only appends whose target variable is iteration-order dependent matter: the outermost slice
 						// accumulated across iterations (a phi in the loop header or a field of an outer object)
 						acc := false
-						if phi, ok := cl.Call.Args[0].(*ssa.Phi); ok && phi.Block() == l.header {
+						if phi, ok := argsOf(cl)[0].(*ssa.Phi); ok && phi.Block() == l.header {
 							acc = true
 						}
-						if _, _, ok := fieldLoad(cl.Call.Args[0]); ok {
-							if base, _, _ := fieldLoad(cl.Call.Args[0]); base != nil {
+						if _, _, ok := fieldLoad(argsOf(cl)[0]); ok {
+							if base, _, _ := fieldLoad(argsOf(cl)[0]); base != nil {
 								if in2, ok := base.(ssa.Instruction); ok && !l.blocks[in2.Block()] {
 									acc = true
 								}
@@ -471,7 +471,7 @@ func c17Determinism(c *Ctx, m *Module) {
 							continue
 						}
 						if !appendSortedBeforeReturn(fn, cl) {
-							bad = "append to " + shortDesc(describe(cl.Call.Args[0])) + " is not followed by a sort"
+							bad = "append to " + shortDesc(describe(argsOf(cl)[0])) + " is not followed by a sort"
 						}
 					}
 					if _, ok := in.(*ssa.Return); ok {
@@ -488,7 +488,7 @@ func c17Determinism(c *Ctx, m *Module) {
 // appendSortedBeforeReturn: some sort call on the accumulated slice happens after the loop.
 func appendSortedBeforeReturn(fn *ssa.Function, app *ssa.Call) bool {
 	for _, cs := range callsIn(fn, "sort.Strings", "sort.Slice", "sort.SliceStable", "sort.Sort", "slices.Sort", "slices.SortFunc", "golang.org/x/mod/semver.Sort") {
-		arg := cs.Common().Args[0]
+		arg := argsOf(cs)[0]
 		for v := range backwardSlice(arg, 60) {
 			if v == ssa.Value(app) {
 				return true
@@ -619,7 +619,7 @@ func c17MinVersionFold(c *Ctx, m *Module, gen *ssa.Function) {
 		}
 		nStores++
 		if cl, ok := strip(mu.Value).(*ssa.Call); ok && calleeName(&cl.Call) == "internal/configgen.minVersion" {
-			a := cl.Call.Args
+			a := argsOf(cl)
 			lk, isLk := strip(a[1]).(*ssa.Lookup)
 			_, vf, isVer := fieldLoad(a[2])
 			okFold := describe(a[0]) == describe(mu.Key) && isLk && strip(lk.X) == ssa.Value(mp) && describe(lk.Index) == describe(mu.Key) && isVer && vf == "Version"
